@@ -1011,7 +1011,11 @@ def run_driver_lines(drv, lines, fails, what):
             for l in chunk:
                 r = _drv(drv, [l], 20)
                 if r is None or r[0].startswith("?crashed"):
-                    fails.append(({"kind": what, "tag": "driver"}, None, "driver hang/crash on: " + l[:300], None))
+                    fp = os.path.join(common.BUILD, "work", "C04", "guards", "driver-fail-%d.txt" % len(fails))
+                    with open(fp, "w") as f:
+                        f.write(l + "\n")          # the complete driver line (the PDF is its hex argument)
+                    fails.append(({"kind": what, "tag": "driver"}, fp, "driver hang/crash (%s) on the line stored in `input`: %s" % (
+                        "killed after 20 s" if r is None else r[0][:80], l[:120]), None))
                     o.append("?crashed")
                 else:
                     o.append(r[0])
